@@ -168,8 +168,12 @@ theorem startJob_cases' (s : Sys) (jc : JCV) (j : JobV) (old : Int) :
 def deferState (s : Sys) (jc : JCV) (j : JobV) : Sys :=
   { s with cfgQ := s.cfgQ.addAfter ("ns/" ++ jc.name) ((j.startAfter.getD 0) * 1000000000) s.clock }
 
+/-- the message `canStartJob` formats into the admission-error annotation -/
+def rejMsg (jc : JCV) (ac : Int) : String × Int := (jc.name, ac)
+
 /-- the authoritative Job written by a successful reject / start -/
-def rejectedJob (s : Sys) (j cur : JobV) : JobV := { rejectF j cur with rv := s.rv + 1 }
+def rejectedJob (s : Sys) (m : String × Int) (j cur : JobV) : JobV :=
+  { rejectF m j cur with rv := s.rv + 1 }
 def startedJob (s : Sys) (j cur : JobV) : JobV := { startF s.clock j cur with rv := s.rv + 1 }
 
 /-- `Pass jc rjs s ac cs s' ok`: running the loop over `rjs` from `s` with active count `ac`
@@ -191,14 +195,29 @@ inductive Pass (jc : JCV) : List JobV → Sys → Int → List Call → Sys → 
       j.hasPolicy = true → startAfterLater j s.clock = false → j.policy = 1 → overLimit jc ac →
       findJob s.jobs j.name = some cur → cur.rv = j.rv → ¬ faultBlocks s →
       nextFault s ≠ "applied-err" →
-      Pass jc rest (applyWrite s "reject" j.name (rejectedJob s j cur)) ac cs s' ok →
+      Pass jc rest (applyWrite s "reject" j.name (rejectedJob s (rejMsg jc ac) j cur)) ac cs s' ok →
       Pass jc (j :: rest) s ac (⟨"reject", j.name, "ok"⟩ :: cs) s' ok
   | rejectLost {j : JobV} {rest : List JobV} {s : Sys} {ac : Int} (cur : JobV) :
       j.hasPolicy = true → startAfterLater j s.clock = false → j.policy = 1 → overLimit jc ac →
       findJob s.jobs j.name = some cur → cur.rv = j.rv → ¬ faultBlocks s →
       nextFault s = "applied-err" →
       Pass jc (j :: rest) s ac [⟨"reject", j.name, "ok"⟩]
-        (applyWrite s "reject" j.name (rejectedJob s j cur)) false
+        (applyWrite s "reject" j.name (rejectedJob s (rejMsg jc ac) j cur)) false
+  /-- the reject write is a no-op (the authoritative Job already carries this very rejection):
+  logged "ok", no new resourceVersion, no event; the pass goes on -/
+  | rejectNoop {j : JobV} {rest : List JobV} {s : Sys} {ac : Int} {cs : List Call} {s' : Sys} {ok : Bool}
+      (cur : JobV) :
+      j.hasPolicy = true → startAfterLater j s.clock = false → j.policy = 1 → overLimit jc ac →
+      findJob s.jobs j.name = some cur → cur.rv = j.rv → ¬ faultBlocks s →
+      nextFault s ≠ "applied-err" → rejectF (rejMsg jc ac) j cur = cur →
+      Pass jc rest (failWrite s "reject" j.name "ok") ac cs s' ok →
+      Pass jc (j :: rest) s ac (⟨"reject", j.name, "ok"⟩ :: cs) s' ok
+  /-- no-op reject write whose answer is lost (`applied-err`): the pass aborts -/
+  | rejectNoopLost {j : JobV} {rest : List JobV} {s : Sys} {ac : Int} (cur : JobV) :
+      j.hasPolicy = true → startAfterLater j s.clock = false → j.policy = 1 → overLimit jc ac →
+      findJob s.jobs j.name = some cur → cur.rv = j.rv → ¬ faultBlocks s →
+      nextFault s = "applied-err" → rejectF (rejMsg jc ac) j cur = cur →
+      Pass jc (j :: rest) s ac [⟨"reject", j.name, "ok"⟩] (failWrite s "reject" j.name "ok") false
   | casFail {j : JobV} {rest : List JobV} {s : Sys} {ac : Int} :
       startVerdict jc s.clock j ac → getCtr s.counter jc.uid ≠ ac →
       Pass jc (j :: rest) s ac [] s false
@@ -259,9 +278,9 @@ theorem passLoop_Pass (jc : JCV) (rjs : List JobV) (s : Sys) (ac : Int) :
     · rw [heq]
       obtain ⟨cs, hcs⟩ := ih (deferState s jc j) ac
       exact ⟨cs, Pass.defer h hl hcs⟩
-    · rw [heq, rejectJobWrite_eq]
-      rcases apiWriteJob_cases s "reject" j (rejectF j) with ⟨res, hres, hw, hwhy⟩ |
-          ⟨cur, hf, hrv, hnb, hw⟩
+    · rw [heq]
+      rcases rejectJobWrite_cases s j (jc.name, ac) with ⟨res, hres, hw, hwhy⟩ |
+          ⟨cur, hf, hrv, hnb, _, hw⟩ | ⟨cur, hf, hrv, hnb, hnoop, hw⟩
       · rw [hw]; simp only [Bool.false_eq_true, if_false]
         exact ⟨_, Pass.rejectFail res h hl hpol hlim hres hwhy⟩
       · rw [hw]
@@ -269,8 +288,15 @@ theorem passLoop_Pass (jc : JCV) (rjs : List JobV) (s : Sys) (ac : Int) :
         · simp only [ha, ne_eq, not_true_eq_false, decide_false, Bool.false_eq_true, if_false]
           exact ⟨_, Pass.rejectLost cur h hl hpol hlim hf hrv hnb ha⟩
         · simp only [ha, ne_eq, not_false_eq_true, decide_true, if_true]
-          obtain ⟨cs, hcs⟩ := ih (applyWrite s "reject" j.name (rejectedJob s j cur)) ac
+          obtain ⟨cs, hcs⟩ := ih (applyWrite s "reject" j.name (rejectedJob s (rejMsg jc ac) j cur)) ac
           exact ⟨_, Pass.rejectOk cur h hl hpol hlim hf hrv hnb ha hcs⟩
+      · rw [hw]
+        by_cases ha : nextFault s = "applied-err"
+        · simp only [ha, ne_eq, not_true_eq_false, decide_false, Bool.false_eq_true, if_false]
+          exact ⟨_, Pass.rejectNoopLost cur h hl hpol hlim hf hrv hnb ha hnoop⟩
+        · simp only [ha, ne_eq, not_false_eq_true, decide_true, if_true]
+          obtain ⟨cs, hcs⟩ := ih (failWrite s "reject" j.name "ok") ac
+          exact ⟨_, Pass.rejectNoop cur h hl hpol hlim hf hrv hnb ha hnoop hcs⟩
     · rw [heq]
       obtain ⟨cs, hcs⟩ := ih s ac
       exact ⟨cs, Pass.wait h hl hpol hlim hcs⟩
@@ -299,6 +325,8 @@ theorem Pass.calls {jc : JCV} {rjs : List JobV} {s : Sys} {ac : Int} {cs : List 
   | rejectFail => simp [failWrite]
   | rejectOk _ _ _ _ _ _ _ _ _ _ ih => simpa [applyWrite] using ih
   | rejectLost => simp [applyWrite]
+  | rejectNoop _ _ _ _ _ _ _ _ _ _ _ ih => simpa [failWrite] using ih
+  | rejectNoopLost => simp [failWrite]
   | casFail => simp
   | startFail => simp [failWrite]
   | startOk _ _ _ _ _ _ _ _ ih => simpa [applyWrite] using ih
@@ -308,8 +336,8 @@ theorem Pass.calls {jc : JCV} {rjs : List JobV} {s : Sys} {ac : Int} {cs : List 
 theorem Pass.preserve {jc : JCV} {P : Sys → Prop}
     (hdefer : ∀ s j, P s → P (deferState s jc j))
     (hfail : ∀ s verb name res, P s → P (failWrite s verb name res))
-    (hrej : ∀ s j cur, findJob s.jobs j.name = some cur → P s →
-      P (applyWrite s "reject" j.name (rejectedJob s j cur)))
+    (hrej : ∀ s m j cur, findJob s.jobs j.name = some cur → P s →
+      P (applyWrite s "reject" j.name (rejectedJob s m j cur)))
     (hstart : ∀ s j cur, findJob s.jobs j.name = some cur → P s →
       P (applyWrite s "start" j.name (startedJob s j cur)))
     (hctr : ∀ s c, P s → P { s with counter := c })
@@ -320,8 +348,10 @@ theorem Pass.preserve {jc : JCV} {P : Sys → Prop}
   | defer _ _ _ ih => exact fun hP => ih (hdefer _ _ hP)
   | wait _ _ _ _ _ ih => exact ih
   | rejectFail => exact fun hP => hfail _ _ _ _ hP
-  | rejectOk cur _ _ _ _ hf _ _ _ _ ih => exact fun hP => ih (hrej _ _ _ hf hP)
-  | rejectLost cur _ _ _ _ hf => exact fun hP => hrej _ _ _ hf hP
+  | rejectOk cur _ _ _ _ hf _ _ _ _ ih => exact fun hP => ih (hrej _ _ _ _ hf hP)
+  | rejectLost cur _ _ _ _ hf => exact fun hP => hrej _ _ _ _ hf hP
+  | rejectNoop cur _ _ _ _ _ _ _ _ _ _ ih => exact fun hP => ih (hfail _ _ _ _ hP)
+  | rejectNoopLost => exact fun hP => hfail _ _ _ _ hP
   | casFail => exact id
   | startFail => exact fun hP => hctr _ _ (hfail _ _ _ _ hP)
   | startOk cur _ _ hf _ _ _ _ ih => exact fun hP => ih (hctr _ _ (hstart _ _ _ hf hP))
@@ -351,7 +381,7 @@ theorem Pass.frame {jc : JCV} {rjs : List JobV} {s : Sys} {ac : Int} {cs : List 
     exact ⟨h1, h2, h3, h4, h5, h6, h7, h8, h9, h10, h11, h12⟩
   · intro s1 _ _ _ ⟨h1, h2, h3, h4, h5, h6, h7, h8, h9, h10, h11, h12⟩
     exact ⟨h1, h2, h3, h4, h5, h6, h7, h8, h9, h10, h11, h12⟩
-  · intro s1 _ _ _ ⟨h1, h2, h3, h4, h5, h6, h7, h8, h9, h10, h11, h12⟩
+  · intro s1 _ _ _ _ ⟨h1, h2, h3, h4, h5, h6, h7, h8, h9, h10, h11, h12⟩
     exact ⟨h1, h2, h3, h4, h5, h6, h7, h8, h9, h10, h11, h12⟩
   · intro s1 _ _ _ ⟨h1, h2, h3, h4, h5, h6, h7, h8, h9, h10, h11, h12⟩
     exact ⟨h1, h2, h3, h4, h5, h6, h7, h8, h9, h10, h11, h12⟩
@@ -365,7 +395,7 @@ theorem Pass.deadline_mono {jc : JCV} {rjs : List JobV} {s : Sys} {ac : Int} {cs
   refine Pass.preserve (P := fun x => HasDeadline x.cfgQ.delayed k b) ?_ ?_ ?_ ?_ ?_ h hd
   · intro s1 j h1; exact hasDeadline_addAfter_mono h1 _ _ _
   · intro s1 _ _ _ h1; exact h1
-  · intro s1 _ _ _ h1; exact h1
+  · intro s1 _ _ _ _ h1; exact h1
   · intro s1 _ _ _ h1; exact h1
   · intro s1 _ h1; exact h1
 
@@ -391,14 +421,14 @@ theorem written_applyWrite_start {s : Sys} {c : Call} {j cur : JobV} (verb : Str
     exact ⟨_, rfl, fun _ => rfl, h2⟩
   · rw [if_neg hc]; exact ⟨a, ha, h1, h2⟩
 
-theorem written_applyWrite_reject {s : Sys} {c : Call} {j cur : JobV} (verb : String)
+theorem written_applyWrite_reject {s : Sys} {c : Call} {m : String × Int} {j cur : JobV} (verb : String)
     (hf : findJob s.jobs j.name = some cur) (h : Written s c) :
-    Written (applyWrite s verb j.name (rejectedJob s j cur)) c := by
+    Written (applyWrite s verb j.name (rejectedJob s m j cur)) c := by
   obtain ⟨a, ha, h1, h2⟩ := h
   have hn := findJob_some_name hf
   unfold Written
   simp only [applyWrite, findJob_setJob]
-  by_cases hc : (rejectedJob s j cur).name = c.job
+  by_cases hc : (rejectedJob s m j cur).name = c.job
   · rw [if_pos hc]
     have : cur = a := by
       have hc' : j.name = c.job := by rw [← hc, ← hn]; rfl
@@ -413,7 +443,7 @@ theorem Pass.written_mono {jc : JCV} {rjs : List JobV} {s : Sys} {ac : Int} {cs 
   refine Pass.preserve (P := fun x => Written x c) ?_ ?_ ?_ ?_ ?_ h hw
   · intro s1 j h1; exact h1
   · intro s1 _ _ _ h1; exact h1
-  · intro s1 j cur hf h1; exact written_applyWrite_reject _ hf h1
+  · intro s1 m j cur hf h1; exact written_applyWrite_reject _ hf h1
   · intro s1 j cur hf h1; exact written_applyWrite_start _ hf h1
   · intro s1 _ h1; exact h1
 
@@ -426,14 +456,27 @@ theorem written_start_self (s : Sys) (j cur : JobV) (hf : findJob s.jobs j.name 
   rw [if_pos this]
   exact ⟨_, rfl, fun _ => rfl, fun h => absurd h (by decide)⟩
 
-theorem written_reject_self (s : Sys) (j cur : JobV) (hf : findJob s.jobs j.name = some cur)
-    (r : String) : Written (applyWrite s "reject" j.name (rejectedJob s j cur)) ⟨"reject", j.name, r⟩ := by
+theorem written_reject_self (s : Sys) (m : String × Int) (j cur : JobV)
+    (hf : findJob s.jobs j.name = some cur) (r : String) :
+    Written (applyWrite s "reject" j.name (rejectedJob s m j cur)) ⟨"reject", j.name, r⟩ := by
   have hn := findJob_some_name hf
   unfold Written
   simp only [applyWrite, findJob_setJob]
-  have : (rejectedJob s j cur).name = j.name := hn
+  have : (rejectedJob s m j cur).name = j.name := hn
   rw [if_pos this]
   exact ⟨_, rfl, fun h => absurd h (by decide), fun _ => rfl⟩
+
+/-- a Job on which the reject write is a no-op already carries the annotation -/
+theorem rejectF_fix_admErr {m : String × Int} {j cur : JobV} (h : rejectF m j cur = cur) :
+    cur.admErr = true := by
+  have := congrArg JobV.admErr h
+  simpa [rejectF] using this.symm
+
+theorem written_reject_noop (s : Sys) {m : String × Int} {j cur : JobV}
+    (hf : findJob s.jobs j.name = some cur) (hnoop : rejectF m j cur = cur) (r : String) :
+    Written (failWrite s "reject" j.name "ok") ⟨"reject", j.name, r⟩ :=
+  ⟨cur, hf, fun h => absurd (show "reject" = "start" from h) (by decide),
+    fun _ => rejectF_fix_admErr hnoop⟩
 
 /-- every call logged `"ok"` during the pass is reflected in the final authoritative state -/
 theorem Pass.ok_written {jc : JCV} {rjs : List JobV} {s : Sys} {ac : Int} {cs : List Call}
@@ -448,11 +491,19 @@ theorem Pass.ok_written {jc : JCV} {rjs : List JobV} {s : Sys} {ac : Int} {cs : 
   | rejectOk cur _ _ _ _ hf _ _ _ hp ih =>
     intro c hc hok
     rcases List.mem_cons.mp hc with rfl | hc
-    · exact hp.written_mono (written_reject_self _ _ _ hf _)
+    · exact hp.written_mono (written_reject_self _ _ _ _ hf _)
     · exact ih c hc hok
   | rejectLost cur _ _ _ _ hf =>
     intro c hc hok; simp only [List.mem_singleton] at hc; subst hc
-    exact written_reject_self _ _ _ hf _
+    exact written_reject_self _ _ _ _ hf _
+  | rejectNoop cur _ _ _ _ hf _ _ _ hnoop hp ih =>
+    intro c hc hok
+    rcases List.mem_cons.mp hc with rfl | hc
+    · exact hp.written_mono (written_reject_noop _ hf hnoop _)
+    · exact ih c hc hok
+  | rejectNoopLost cur _ _ _ _ hf _ _ _ hnoop =>
+    intro c hc hok; simp only [List.mem_singleton] at hc; subst hc
+    exact written_reject_noop _ hf hnoop _
   | casFail => simp
   | startFail res _ _ hres =>
     intro c hc hok; simp only [List.mem_singleton] at hc; subst hc; exact absurd hok hres
